@@ -5,7 +5,7 @@ import numpy as np
 from hypothesis import strategies as st
 from . import gen, oracles
 
-Q_KINDS = ['none', 'identity', 'sparse_eye', 'dense', 'dense', 'prefix', 'sparse_prefix', 'linop', 'total', 'scaled']
+Q_KINDS = ['none', 'identity', 'sparse_eye', 'dense', 'dense', 'prefix', 'sparse_prefix', 'linop', 'linop_eye', 'total', 'scaled']
 
 
 @st.composite
@@ -39,6 +39,10 @@ def build_Q(spec, n):
     if k == 'linop':
         r = min(spec['rows'], n + 2)
         D = rng.standard_normal(size=(r, n)); return aslinearoperator(D.copy()), D
+    if k == 'linop_eye':
+        from scipy.sparse.linalg import LinearOperator
+        # an identity operator in the style of hdmm.matrix.Identity: matvec hands back the very array it was given
+        return LinearOperator((n, n), matvec=lambda v: v, rmatvec=lambda v: v, matmat=lambda V: V, dtype=float), np.eye(n)
     if k == 'total':
         D = np.ones((1, n)); return D.copy(), D
     if k == 'zero':
@@ -241,6 +245,11 @@ def est_cases(draw, min_attrs=2, max_attrs=4, max_size=4, cap=256, min_m=0, max_
             'elim': draw(st.sampled_from(['none', 'none', 'perm']))}
     if case['elim'] == 'perm':
         case['elim_perm'] = list(draw(st.permutations(attrs)))
+    if draw(st.integers(0, 7)) == 0 and case['total'] is not None:
+        # the same problem in other units: total, answers and noise scales multiplied by 1e5
+        case['total'] = float(case['total']) * 1e5
+        case['meas'] = [dict(m, noise=m['noise'] * 1e5) for m in case['meas']]
+        case['units'] = 1e5
     if long_cycle and draw(st.integers(0, 5)) == 0:
         # long chordless cycle of pairwise measurements (needs second-order fill-in in the junction tree)
         n = draw(st.integers(5, 6))
